@@ -36,7 +36,7 @@ pub struct Call {
 
 impl Call {
     pub fn mutating(&self) -> bool {
-        !matches!(self.kind, "open_ro" | "close")
+        !matches!(self.kind, "open_ro" | "close" | "mark")
     }
 }
 
@@ -112,6 +112,13 @@ pub fn stop() -> Vec<Call> {
         s.pause_at = None;
         std::mem::take(&mut s.calls)
     })
+}
+
+/// A marker of the driver in the ordered record of calls (not a call: e.g. "the store object has been dropped").
+pub fn mark(label: &str) {
+    if with(|s| s.watch.is_some()) {
+        record("mark", label.to_string(), 0, 0, vec![], 0, 0, false);
+    }
 }
 
 pub fn take_calls() -> Vec<Call> {
